@@ -3,7 +3,7 @@
 # (created on demand from /repo HEAD), runs the given checks (default: all) against it and reverts.
 cd /verif || exit 2
 . ./env.sh
-wt=/tmp/triage
+wt=${WT:-/tmp/triage}
 [ -d $wt ] || git -C /repo worktree add -q --detach $wt HEAD || exit 2
 git -C $wt checkout -q --detach $(git -C /repo rev-parse HEAD) 2>/dev/null
 patch="$1"; shift
